@@ -364,10 +364,13 @@ func (a *Act) binop(st *State, op token.Token, xv, yv Val, t types.Type, pos tok
 			a.u.Fact(eq(app("str_len", c), app("+", app("str_len", x), app("str_len", y))))
 			return c
 		}
+		a.overflowCheck(st, t, app("+", x, y), pos)
 		return app("+", x, y)
 	case token.SUB:
+		a.overflowCheck(st, t, app("-", x, y), pos)
 		return app("-", x, y)
 	case token.MUL:
+		a.overflowCheck(st, t, app("*", x, y), pos)
 		return app("*", x, y)
 	case token.QUO:
 		if srt == "Real" {
@@ -708,4 +711,23 @@ func writeOnceCell(al *ssa.Alloc) bool {
 		return true
 	}
 	return onlyLoads(al, 0) && stores == 1
+}
+
+// overflowCheck: the mathematical result of a signed integer operation stays inside the machine type
+// (obligation kind "overflow"; part of a claim only when its `kinds` list names it).
+func (a *Act) overflowCheck(st *State, t types.Type, r Term, pos token.Pos) {
+	b, ok := types.Unalias(t).Underlying().(*types.Basic)
+	if !ok || a.spec {
+		return
+	}
+	var lo, hi string
+	switch b.Kind() {
+	case types.Int, types.Int64:
+		lo, hi = "(- 9223372036854775808)", "9223372036854775807"
+	case types.Int32:
+		lo, hi = "(- 2147483648)", "2147483647"
+	default:
+		return
+	}
+	a.oblige(st, "overflow", "", pos, "integer arithmetic stays inside the machine type", and(app("<=", lo, r), app("<=", r, hi)))
 }
